@@ -39,6 +39,15 @@ func c25starts() []c25start {
 		{"fresh (dialled, not connected)", func(c *cl.CL, s *vsched.Sched) { silent(c); c.Dial() }},
 		{"connecting", func(c *cl.CL, s *vsched.Sched) { silent(c); c.Dial(); c.Go("Connect", c.C.Connect) }},
 		{"connected", func(c *cl.CL, s *vsched.Sched) { connectAnd(c); silent(c) }},
+		// subscriptions with more and with fewer levels than the topics the gateway then registers and publishes on
+		{"connected, subscribed s/a/b, w/#, p/+", func(c *cl.CL, s *vsched.Sched) {
+			connectAnd(c)
+			for _, f := range []string{"s/a/b", "w/#", "p/+"} {
+				f := f
+				c.Go("Subscribe "+f, func() error { return c.C.Subscribe(f, 1, c.Handler(f)) })
+			}
+			silent(c)
+		}},
 		{"pending Publish q1", pend("Publish q1", func(c *cl.CL) error { return c.C.Publish("xy", []byte("m"), 1, false) })},
 		{"pending Publish q2", pend("Publish q2", func(c *cl.CL) error { return c.C.Publish("xy", []byte("m"), 2, false) })},
 		{"pending Subscribe", pend("Subscribe", func(c *cl.CL) error { return c.C.Subscribe("s/1", 1, c.Handler("s/1")) })},
@@ -82,6 +91,12 @@ func c25alphabet() []string {
 				break // no message id in these: one variant
 			}
 		}
+	}
+	// the gateway registers parents and children of subscribed topics and publishes on them
+	for i, name := range []string{"s/a", "s/a/b/c", "w", "p/x/y", "s//b"} {
+		id := uint16(70 + i)
+		a = append(a, cl.EvG(fmt.Sprintf("REGISTER(id %d,%s)", id, name), refsn.Pkt{Type: refsn.REGISTER, TopicID: id, MsgID: 4, Str: name}.Encode()),
+			cl.EvG(fmt.Sprintf("PUBLISH(registered id %d)", id), refsn.Pkt{Type: refsn.PUBLISH, TIT: 0, TopicID: id, MsgID: 3, QoS: 0, HasFlags: true, Data: []byte("d")}.Encode()))
 	}
 	a = append(a,
 		cl.EvG("PUBLISH(registered id 77 unknown)", refsn.Pkt{Type: refsn.PUBLISH, TIT: 0, TopicID: 77, MsgID: 3, QoS: 1, Data: []byte("d")}.Encode()),
